@@ -64,3 +64,27 @@ package object
 //@ func (Object).Interface
 //@ trusted
 //@ modifies nothing
+
+// C03 (a panic in a goroutine other than the caller's ends the process): inventory of the go statements of the
+// package. NewThread's goroutine runs script code (spawn, go statements of scripts) and recovers; waitToClose's
+// goroutine only waits on two channels and closes the file (no script code, no indexing).
+//@ scan[C03.goroutines.object] C03 gostmts object: NewThread#1:recover (*File).waitToClose#1:bare
+
+// C01 / C03: list.each and list.filter accept a function or a builtin (their own type switch) and must be able to
+// call what they accept: no type assertion in their bodies can fail and no nil interface is called (KF-40 fixed:
+// both asserted the callable to *Function after letting *Builtin through).
+// Assumed of the function values they call (CallFunc from the context, a builtin's Go function): a call that
+// reports no error returns a non-nil object.
+//@ func (*List).Filter
+//@ props C01 C03
+//@ safety typeassert nil
+//@ requires ls != nil && ctx != nil && fn != nil && ref(fn) != nil
+//@ dynensures CallFunc: result1 == nil ==> result0 != nil
+//@ dynensures BuiltinFunction: result0 != nil
+
+//@ func (*List).Each
+//@ props C01 C03
+//@ safety typeassert nil
+//@ requires ls != nil && ctx != nil && fn != nil && ref(fn) != nil
+//@ dynensures CallFunc: result1 == nil ==> result0 != nil
+//@ dynensures BuiltinFunction: result0 != nil
